@@ -1,9 +1,9 @@
 SPECIFICATION Spec
-CONSTANTS NUris = 3
- NTexts = 5
- NProbes = 3
- MaxLen = 12
- MultiChange = TRUE
- TailMode = FALSE
+CONSTANTS NUris = 1
+ NTexts = 2
+ NProbes = 1
+ MaxLen = 7
+ MultiChange = FALSE
+ TailMode = TRUE
 INVARIANTS C19_LatestOfRightDoc C19_DocsIsLast C19_VersionsRestart EmitInv
 CHECK_DEADLOCK FALSE
